@@ -339,15 +339,9 @@ theorem step_prov {cfg : Config} {ifs : List Iface} {s : MState} (h : Prov cfg i
     · exact finishCycle_prov (resume_prov h _)
 
 theorem prov_init (cfg : Config) (ifs : List Iface) (s : MState) (h : newAgent cfg ifs = .ok s) : Prov cfg ifs s := by
-  unfold newAgent at h
-  split at h
-  · simp at h
-  · split at h
-    · simp at h
-    · simp only [Except.ok.injEq] at h
-      subst h
-      exact ⟨rfl, rfl, by intro c hc; simp at hc, by intro e he; simp at he, by intro j hj; simp at hj,
-        by intro hne; simp at hne⟩
+  rw [newAgent_ok h]
+  exact ⟨rfl, rfl, by intro c hc; simp at hc, by intro e he; simp at he, by intro j hj; simp at hj,
+    by intro hne; simp at hne⟩
 
 theorem flush_prov {cfg : Config} {ifs : List Iface} {s : MState} (h : Prov cfg ifs s) : Prov cfg ifs s.flush :=
   ⟨h.cfgEq, h.ifsEq, h.cands, by intro e he; simp [MState.flush] at he, h.jobs, h.held⟩
